@@ -196,6 +196,7 @@ def run_removal(inst, leaving, seed, lines=False, second=False):
             leaving2 = sorted({first} | set(rr.sample(survivors, rr.randint(1, kk)))) [:kk] if kk > 1 and rr.random() < 0.5 else [first]
             S2["leaving"] = leaving2
             S2["before"] = snap
+            S2["lost_requests_before"] = list(out["lost_requests"])
             S2["replicas_before"] = {a: sorted(AG[a].replication_comp.hosted_replicas) for a in survivors}
             S2["replica_hosts_before"] = {}
             for c in comps:
@@ -257,6 +258,19 @@ def run_removal(inst, leaving, seed, lines=False, second=False):
         th.join(5)
         out["status"] = o.status
 
+    from pydcop.replication import dist_ucs_hostingcosts as ucs_mod
+
+    orig_lost = ucs_mod.UCSReplication._answer_lost_requests
+    out["lost_requests"] = []
+
+    def answer_lost(self, agent):
+        # observation only: (agent that had forwarded the request, departed agent it was sent to, computation)
+        for rq_agt, rq_comp in list(self._pending_requests):
+            if rq_agt == agent:
+                out["lost_requests"].append((self.agt_name, agent, rq_comp))
+        return orig_lost(self, agent)
+
+    ucs_mod.UCSReplication._answer_lost_requests = answer_lost
     Messaging.post_msg, Messaging.next_msg = post_msg, next_msg
     oam.OrchestratedAgent.__init__ = agent_init
     om.AgentsMgt._dump_repair_metrics = dump
@@ -282,6 +296,7 @@ def run_removal(inst, leaving, seed, lines=False, second=False):
     finally:
         per.stop()
         Messaging.post_msg, Messaging.next_msg = orig_post, orig_next
+        ucs_mod.UCSReplication._answer_lost_requests = orig_lost
         oam.OrchestratedAgent.__init__ = orig_init
         om.AgentsMgt._dump_repair_metrics = orig_dump
         if o is not None:
@@ -294,6 +309,14 @@ def run_removal(inst, leaving, seed, lines=False, second=False):
                 o.stop()
             except Exception as e:
                 out["errors"].append("stop: %s: %s" % (type(e).__name__, e))
+            # observation: agent threads still alive after the orchestrator's stop (they are then asked again, directly)
+            time.sleep(0.05)
+            out["alive_after_stop"] = sorted(a for a, ag in AG.items() if ag.t.is_alive())
+            for a in out["alive_after_stop"]:
+                try:
+                    AG[a].clean_shutdown()
+                except Exception:
+                    pass
         os.chdir(cwd)
         shutil.rmtree(d, ignore_errors=True)
     out["wall"] = time.time() - t0
@@ -447,7 +470,15 @@ def analyse_second(inst, r):
     P = []
     if not S2.get("level_restored"):
         short = {c: holders[c] for c in comps if len(holders[c]) < S2["level_wanted"]}
-        P.append(("replication-level-not-restored-after-repair",
+        lost = S2.get("lost_requests_before") or []
+        # mechanism of the known finding: the search for a replica host went through an agent other than the computation's
+        # host, which forwarded the request to a departed agent whose departure it had not learnt yet; the request is lost
+        # and answered as "nothing found", the search ends below the level and is not tried again
+        by_intermediate = all(any(comp == c and at != owner[c] for at, gone, comp in lost) for c in short)
+        key = "replication-level-not-restored:request-forwarded-to-a-departed-agent-by-an-intermediate-agent" if by_intermediate \
+            else "replication-level-not-restored-after-repair"
+        ctx += " lost requests (forwarding agent, departed agent, computation): %r" % (lost,)
+        P.append((key,
                   "8 s after the first repair (departure of %r) these computations still have fewer than %d replicas on the surviving agents: %r" % (
                       sorted(leaving1), S2["level_wanted"], short) + ctx))
     reports = S2.get("reports") or []
@@ -565,6 +596,7 @@ def worker(job):
         R.bump("reported_status", str(S.get("status")))
         R.bump("placement_at_report_time", "complete" if S.get("placement_complete_at_report") else "incomplete-or-unknown")
         R.bump("departing_set_size", str(len(leaving)))
+        R.count("runs_with_agent_threads_alive_after_orchestrator_stop", 1 if r.get("alive_after_stop") else 0)
         R.bump("algorithms", inst["algo"])
         seen = set()
         for k, m in P:
